@@ -258,6 +258,17 @@ def replay(r):
     model = r.get("model") or {}
     fn = name.split("::")[1].split("#")[0]
     clause = name.split("#")[1].split("@")[0]
+    if fn == "_tmu_like" and clause.startswith("fwd."):
+        import numpy as np_
+        import pyhf.infer.test_statistics as ts_
+        importlib.reload(ts_)
+
+        class Cfg_:
+            poi_index = 0
+
+        class Pdf_:
+            config = Cfg_()
+        return _replay_history(ts_, np_, Pdf_)
     if not clause.startswith("post.") or not model:
         return None
 
@@ -291,7 +302,9 @@ def replay(r):
             ts.fixed_poi_fit, ts.fit = saved
         got = float(out[0] if rfp else out)
         want = max(0.0, vf - vu)
-        return {"reproduced": abs(got - want) > 1e-9 * max(1, abs(want)), "inputs": {"v_fixed": vf, "v_free": vu}, "got": got, "oracle": want}
+        if abs(got - want) > 1e-9 * max(1, abs(want)):
+            return {"reproduced": True, "inputs": {"v_fixed": vf, "v_free": vu}, "got": got, "oracle": want}
+        return _replay_history(ts, np, Pdf)
     if fn in ("_qmu_like", "q0"):
         tmu, muhat, mu = val(model.get("tmu")), val(model.get("muhat_poi")), val(model.get("mu"))
         if None in (tmu, muhat, mu):
@@ -320,3 +333,31 @@ def replay(r):
         got = float(out[0] if rfp else out)
         return {"reproduced": abs(got - cs) > 1e-12, "inputs": {"callee_stat": cs}, "got": got, "oracle": cs}
     return None
+
+
+def _replay_history(ts, np, Pdf):
+    """a SEQUENCE of calls on the same model and data with different settings: each call must be computed from fits
+    made with the settings of that call (fits are stubs whose result depends on the bounds / init / fixed they receive)"""
+    def fake_fit(data, pdf, init_pars, par_bounds, fixed_params, **k):
+        lo = par_bounds[0][0]
+        return np.asarray([lo + 0.25]), np.asarray(10.0 + lo)
+
+    def fake_fixed(mu, data, pdf, init_pars, par_bounds, fixed_params, **k):
+        lo = par_bounds[0][0]
+        return np.asarray([mu]), np.asarray(14.0 + 2 * lo)
+    saved = (ts.fixed_poi_fit, ts.fit)
+    ts.fixed_poi_fit, ts.fit = fake_fixed, fake_fit
+    pdf = Pdf()
+    data = np.asarray([3.0])
+    bad = []
+    try:
+        for lo in (0.0, -1.0, 0.0, -2.0):
+            out = ts._tmu_like(1.0, data, pdf, [1.0], [(lo, 10.0)], [False], return_fitted_pars=True)
+            want = max(0.0, (14.0 + 2 * lo) - (10.0 + lo))
+            got = float(out[0])
+            muhat = float(out[1][1][0])
+            if abs(got - want) > 1e-12 or abs(muhat - (lo + 0.25)) > 1e-12:
+                bad.append({"par_bounds": [(lo, 10.0)], "got": got, "oracle": want, "muhat_returned": muhat, "muhat_of_this_call": lo + 0.25})
+    finally:
+        ts.fixed_poi_fit, ts.fit = saved
+    return {"reproduced": bool(bad), "history": "_tmu_like called four times on one model / data with POI lower bounds 0, -1, 0, -2", "disagreements": bad}
